@@ -44,11 +44,14 @@ def crypto_kills(ctx, also=None):
         good = 'cipher.key_size' in text and 'unpack(' in text
     ctx.stats['who-constructs Crypto'] = [fi.qual for fi, _ in sites]
 
-    def kills(fi, node, exc, text):
+    def kills(fi, node, exc, text, call=None):
         if also is not None:
-            w = also(fi, node, exc, text)
+            w = also(fi, node, exc, text, call)
             if w:
                 return w
+        w = literal_arg_kill(fi, exc, text, call)
+        if w:
+            return w
         if not good:
             return None
         if exc == 'EncrError' and fi.qual in ('crypto.Cipher.decrypt', 'crypto.Cipher.encrypt'):
@@ -118,3 +121,260 @@ def state_name(expr):
     if ch and '.State.' in '.' + ch:
         return ch.split('.')[-1]
     return None
+
+
+# ---------------------------------------------------------------------------------------
+# context-sensitive refinements at call edges: a constructor's "empty input" guard cannot
+# fire when the caller passes a non-empty literal (derived fact, recomputed on every run)
+def literal_arg_kill(fi, exc, text, call):
+    if call is None or exc != 'InvalidSyntax' or not text.startswith('call message.'):
+        return None
+    callee = text[5:]
+    if callee == 'message.PayloadSA.__init__' and call.args and isinstance(call.args[0], ast.List) \
+            and call.args[0].elts:
+        return 'PayloadSA built from a non-empty list display'
+    if callee == 'message.PayloadVENDOR.__init__' and call.args and isinstance(call.args[0], ast.Constant) \
+            and isinstance(call.args[0].value, bytes) and call.args[0].value:
+        return 'PayloadVENDOR built from a non-empty bytes literal'
+    if callee == 'message.PayloadNONCE.__init__' and not call.args and not call.keywords:
+        return 'PayloadNONCE() draws a fresh 16..255 octet nonce (length test only applies to a given nonce)'
+    return None
+
+
+# Frozen configuration invariants (one reason each): exceptions that can only be raised when a
+# loaded configuration violates what configuration.py guarantees (checked by C19/B2).
+CONFIG_INVARIANTS = [
+    # (caller qual prefix, callee qual, exception, reason)
+    ('ikesa.IkeSa.', 'message.Proposal.copy_without_dh_transforms', 'InvalidSyntax',
+     'configured proposals always carry INTEG (and ESN/ENCR) transforms, so the copy is never empty'),
+    ('ikesa.IkeSa.', 'crypto.DiffieHellman.from_group', 'KeyError',
+     'locally chosen DH groups come from configuration._dh_name_to_transform = the groups crypto.py supports'),
+    ('ikesa.IkeSa.', 'crypto.DiffieHellman.from_group', 'IndexError',
+     'locally chosen DH groups come from configuration._dh_name_to_transform = the groups crypto.py supports'),
+    ('ikesa.IkeSa.', 'crypto.DiffieHellman.from_group', 'ValueError',
+     'key generation for a supported group does not fail'),
+    ('ikesa.IkeSa._generate_ike_sa_negotiation_request', 'message.Proposal.get_transform', 'StopIteration',
+     'an IKE proposal built by the loader contains a DH transform (default [14])'),
+]
+
+
+def config_invariant_kill(fi, node, exc, text, call=None):
+    if not text.startswith('call '):
+        return None
+    callee = text[5:]
+    for pre, cq, e, why in CONFIG_INVARIANTS:
+        if fi.qual.startswith(pre) and callee == cq and exc == e:
+            return 'configuration invariant: ' + why
+    return None
+
+
+# ---------------------------------------------------------------------------------------
+def table_insert_undo(ctx, esc, rule):
+    """D2/V4: every IKE_SA registered in IkeSaController.ike_sas by an event whose later
+    processing can raise is unregistered on that exceptional path, or is necessarily in
+    state DELETED there (the timer sweep removes DELETED entries)."""
+    from ..cfg import build_cfg, path_facts, fmt_path
+    from ..typestate import States
+    states = States(ctx.prog)
+    ctrl = ctx.prog.cls('ikesacontroller.IkeSaController')
+    nsites = 0
+    for fi in ctrl.methods.values():
+        g = esc.add_exception_edges(fi)
+        for a in g.nodes:
+            if a.kind != 'stmt':
+                continue
+            call = None
+            for e in a.exprs():
+                for x in walk_no_nested(e):
+                    if (isinstance(x, ast.Call) and isinstance(x.func, ast.Attribute) and x.func.attr == 'append'
+                            and src(x.func.value).endswith('ike_sas') and x.args):
+                        call = x
+            if call is None:
+                continue
+            nsites += 1
+            elem = src(call.args[0])
+            ctx.functions.add(fi.qual)
+            bad = None
+            npaths = 0
+            for path in g.paths():
+                if path[-1][0].kind != 'xexit':
+                    continue
+                idx = next((i for i, (n, lab) in enumerate(path) if n is a), None)
+                if idx is None or isinstance(path[idx][1], tuple):
+                    continue
+                facts = path_facts(path, states, mutates_state=lambda c: state_mutating_call(ctx, fi, c))
+                if facts is None:
+                    continue
+                npaths += 1
+                removed = False
+                for n, lab in path[idx + 1:]:
+                    for e in n.exprs():
+                        if e is None:
+                            continue
+                        for x in walk_no_nested(e):
+                            if (isinstance(x, ast.Call) and isinstance(x.func, ast.Attribute)
+                                    and x.func.attr == 'remove' and src(x.func.value).endswith('ike_sas')
+                                    and x.args and src(x.args[0]) == elem):
+                                removed = True
+                if removed:
+                    continue
+                sts = facts['state'].get(elem + '.state')
+                if sts is not None and sts <= {'DELETED'}:
+                    continue
+                bad = path
+                break
+            what = 'entry `%s` appended to ike_sas in %s is unregistered (or DELETED) on every exceptional exit (%d paths)' % (
+                elem, fi.qual, npaths)
+            if bad is None:
+                ctx.ok(rule, what, ctx.site(fi, call))
+            else:
+                raiser = [n for n, lab in bad if isinstance(lab, tuple)]
+                last = raiser[-1] if raiser else a
+                ctx.bad(rule, (rule, fi.qual, 'append ' + elem, last.text()[:80]),
+                        'an event that fails after `%s.append(%s)` leaves the entry registered: %s can raise at `%s`'
+                        % (src(call.func.value), elem, fi.qual, last.text()[:80]),
+                        ctx.site(fi, call), {'path': fmt_path(bad), 'raises': sorted((last.raises or {}).keys())})
+    ctx.floor('%s ike_sas.append sites' % rule, nsites, 3)
+
+
+def bytes_fields(cls):
+    """attributes a class writes raw into its serialisation (`data += self.x`, `return self.x`)"""
+    out = set()
+    tb = cls.methods.get('to_bytes')
+    if tb is None:
+        return out
+    for n in walk_no_nested(tb.node):
+        v = None
+        if isinstance(n, ast.AugAssign):
+            v = n.value
+        elif isinstance(n, ast.Return):
+            v = n.value
+        if isinstance(v, ast.Attribute) and isinstance(v.value, ast.Name) and v.value.id == 'self':
+            out.add(v.attr)
+    return out
+
+
+def to_dict_value_kinds(ctx, rule):
+    """no to_dict in message.py hands a raw byte-string field to json.dumps"""
+    n = 0
+    for c in ctx.prog.module('message').classes.values():
+        td = c.methods.get('to_dict')
+        if td is None:
+            continue
+        raw = set()
+        for k in c.mro():
+            raw |= bytes_fields(k)
+        for x in walk_no_nested(td.node):
+            vals = []
+            if isinstance(x, ast.Assign) and isinstance(x.targets[0], ast.Subscript):
+                vals = [x.value]
+            elif isinstance(x, ast.Tuple) and len(x.elts) == 2 and isinstance(x.elts[0], ast.Constant):
+                vals = [x.elts[1]]
+            for v in vals:
+                n += 1
+                bad = isinstance(v, ast.Attribute) and isinstance(v.value, ast.Name) and v.value.id == 'self' \
+                    and v.attr in raw
+                ctx.check(not bad, rule, '%s emits `%s` in a JSON-serialisable form' % (td.qual, src(v)[:50]),
+                          key=(rule, td.qual, 'raw-bytes', src(v)), site=ctx.site(td, x))
+    ctx.floor('%s to_dict entries' % rule, n, 30)
+
+
+_STATE_WRITERS = {}
+
+
+def state_writers(ctx):
+    """functions that (transitively) assign `<self>.state`"""
+    key = id(ctx.prog)
+    if key in _STATE_WRITERS:
+        return _STATE_WRITERS[key]
+    direct = set()
+    for fi in ctx.prog.all_functions():
+        for n in walk_no_nested(fi.node):
+            if isinstance(n, ast.Assign) and any(isinstance(t, ast.Attribute) and t.attr == 'state'
+                                                 for t in n.targets):
+                direct.add(fi.qual)
+    graph = ctx.res.call_graph()
+    out = set(direct)
+    changed = True
+    while changed:
+        changed = False
+        for q, callees in graph.items():
+            if q not in out and callees & out:
+                out.add(q)
+                changed = True
+    _STATE_WRITERS[key] = out
+    return out
+
+
+def state_mutating_call(ctx, fi, call):
+    r = ctx.res.resolve_call(call, fi, count=False)
+    if not r.targets:
+        return False
+    w = state_writers(ctx)
+    return any(t.qual in w for t in r.targets)
+
+
+def state_assert_kill(fi, node, exc, text, call=None):
+    """`assert self.state ...` is decided by the typestate analysis (typestate_asserts_hold),
+    not by the flow-insensitive escape analysis."""
+    if exc == 'AssertionError' and text.startswith('assert ') and '.state' in text:
+        return 'state assertion: decided by typestate (S1)'
+    return None
+
+
+def chain_kills(*fs):
+    def k(fi, node, exc, text, call=None):
+        for f in fs:
+            w = f(fi, node, exc, text, call)
+            if w:
+                return w
+        return None
+    return k
+
+
+def engine_kills(ctx):
+    """the standard refinement set used by every rule that needs "cannot raise" facts"""
+    return crypto_kills(ctx, also=chain_kills(config_invariant_kill, state_assert_kill))
+
+
+ENTRY_POINTS = ['process_message', 'process_acquire', 'process_expire', 'check_retransmission_timer',
+                'check_dead_peer_detection_timer', 'check_rekey_ike_sa_timer']
+
+
+def typestate(ctx, esc):
+    """run the typestate analysis from every entry point of IkeSa in every state (cached per ctx)"""
+    ts = getattr(ctx, '_typestate', None)
+    if ts is None or ts.esc is not esc:
+        from ..typestate import Typestate
+        ts = Typestate(ctx.prog, ctx.res, esc)
+        ts.entry_outcomes = {}
+        for name in ENTRY_POINTS:
+            fi = ctx.prog.func('ikesa.IkeSa.' + name)
+            ts.entry_outcomes[name] = ts.run_entry(fi)
+        ctx._typestate = ts
+    return ts
+
+
+def typestate_asserts_hold(ctx, esc, rule):
+    ts = typestate(ctx, esc)
+    nass = sum(1 for k in ts.checks if k[1] == 'assert') + sum(1 for k in ts.failures if k[1] == 'assert'
+                                                                 and k not in ts.checks)
+    asserts = sorted(set(k for k in list(ts.checks) + list(ts.failures) if k[1] == 'assert'))
+    # every state assert in IkeSa must have been reached by the analysis
+    total = 0
+    for fi in ctx.prog.cls('ikesa.IkeSa').methods.values():
+        for n in walk_no_nested(fi.node):
+            if isinstance(n, ast.Assert) and '.state' in src(n.test):
+                total += 1
+                k = (fi.qual, 'assert', src(n.test))
+                f = ts.failures.get(k)
+                if f is None:
+                    ctx.ok(rule, 'state precondition `assert %s` of %s holds at every call site in every reachable '
+                           'state' % (src(n.test), fi.qual), ctx.site(fi, n))
+                else:
+                    ctx.bad(rule, (rule, fi.qual, 'assert ' + src(n.test), ','.join(sorted(f['states']))),
+                            'state precondition `assert %s` of %s fails in state(s) %s via %s' % (
+                                src(n.test), fi.qual, sorted(f['states']), f['chains'][0][1]),
+                            ctx.site(fi, n), {'chains': f['chains']})
+    ctx.floor('%s state assertions in IkeSa' % rule, total, 7)
+    return ts
